@@ -86,6 +86,7 @@ class SimRunner:
 
     clock = None
     raised = []
+    soft_failed = []  # requests for which the runner *returned* a failure (success: False) instead of raising
 
     async def __aenter__(self):
         return self
@@ -115,6 +116,7 @@ class SimRunner:
         if req["soft_fail"]:
             d["success"] = False
             d["weight"] = 0
+            SimRunner.soft_failed.append(path)
         elif req["ret"] == "dict-success":
             d["success"] = True
         if req.get("throughput") is not None:
